@@ -8,7 +8,10 @@ RULE = ("diagrams: empty link, crossingless unknot, table knots and their mirror
         "order shuffled, mirrored) up to 6 crossings (quick) / 8 (thorough); parameters (h,t) in {(0,0),(1,0),(0,1),(2,0),(1,1),"
         "(3,2),(-1,0),(0,-3)}, reduced and unreduced; per case the tables over Z (rank+torsion), Q, F2, F3 and, for h=t=0, "
         "the bigraded tables are compared exactly; each case is additionally run in pools of 1 and 16 threads and with the "
-        "crossing list shuffled (must give the identical table). non-trivial = diagram with >= 2 crossings; distinct = distinct case lines")
+        "crossing list shuffled (must give the identical table); kind hr: the builder option h_range (TngComplexBuilder::"
+        "set_h_range with ranges below / around / above 0 on diagrams with negative crossings, set before any crossing or "
+        "after k crossings): inside the range the restricted build must give the unrestricted homology, whose table is "
+        "compared with the oracle's. non-trivial = diagram with >= 2 crossings; distinct = distinct case lines")
 
 
 def nontrivial(case, impl):
